@@ -255,19 +255,28 @@ func (vc *VC) appendSlices(name string, elem types.Type, a string, bv ssa.Value,
 	h := vc.getH(vc.st, n, s)
 	ref := vc.freshRef()
 	arr := vc.declare(name+"_arr", "(Array Int "+es+")")
-	var blen, bget string
-	if vc.pre.sortOf(bv.Type()) == "Str" { // append([]byte, string...)
+	var blen, bget, bidx string
+	isStr := vc.pre.sortOf(bv.Type()) == "Str"
+	if isStr { // append([]byte, string...)
 		vc.pre.declFun("sbytes", "(Str) (Array Int Int)")
 		blen = fmt.Sprintf("(slen %s)", b)
 		bget = fmt.Sprintf("(select (sbytes %s) (- k (s_len %s)))", b, a)
+		bidx = "true"
 	} else {
 		blen = fmt.Sprintf("(s_len %s)", b)
 		bget = fmt.Sprintf("(select (select %s (s_ref %s)) (+ (s_off %s) (- k (s_len %s))))", h, b, b, a)
+		bidx = fmt.Sprintf("(= (idx %s (- k (s_len %s))) (+ (s_off %s) (- k (s_len %s))))", b, a, b, a)
 	}
-	vc.assume(fmt.Sprintf("(forall ((k Int)) (! (and (=> (and (<= 0 k) (< k (s_len %s))) (= (select %s k) (select (select %s (s_ref %s)) (+ (s_off %s) k)))) (=> (and (<= (s_len %s) k) (< k (+ (s_len %s) %s))) (= (select %s k) %s))) :pattern ((select %s k))))",
-		a, arr, h, a, a, a, a, blen, arr, bget, arr))
+	res := vc.define(name, "Slice", fmt.Sprintf("(mk_slice %s 0 (+ (s_len %s) %s))", ref, a, blen))
+	// content of the new array, and the definition of idx on the slices involved (trigger bridge)
+	vc.assume(fmt.Sprintf("(forall ((k Int)) (! (and (= (idx %s k) k) (= (idx %s k) (+ (s_off %s) k)) %s (=> (and (<= 0 k) (< k (s_len %s))) (= (select %s k) (select (select %s (s_ref %s)) (+ (s_off %s) k)))) (=> (and (<= (s_len %s) k) (< k (+ (s_len %s) %s))) (= (select %s k) %s))) :pattern ((idx %s k)) :pattern ((select %s k))))",
+		res, a, a, bidx, a, arr, h, a, a, a, a, blen, arr, bget, res, arr))
+	if !isStr {
+		// single-element append onto a slice that starts at offset 0: closed form, no quantifier needed
+		vc.assume(fmt.Sprintf("(=> (and (= (s_off %s) 0) (= (s_len %s) 1)) (= %s (store (select %s (s_ref %s)) (s_len %s) (select (select %s (s_ref %s)) (s_off %s)))))", a, b, arr, h, a, a, h, b, b))
+	}
 	vc.setH(vc.st, n, s, fmt.Sprintf("(store %s %s %s)", h, ref, arr))
-	return vc.define(name, "Slice", fmt.Sprintf("(mk_slice %s 0 (+ (s_len %s) %s))", ref, a, blen))
+	return res
 }
 
 func (vc *VC) copySlices(name string, elem types.Type, d string, sv ssa.Value, s string) string {
@@ -369,6 +378,9 @@ func (vc *VC) applyContract(c *Contract, com *ssa.CallCommon, key string, args [
 		vc.ghostAssign(post, ga, vc.st)
 	}
 	for _, e := range c.Ensures {
+		if e.Trusted {
+			vc.assumedUsed[key+" (trusted clause "+e.Name()+": "+trunc(e.Text, 100)+")"] = true
+		}
 		vc.assume(vc.evalBool(post, e.E, e))
 	}
 	return res
